@@ -199,6 +199,7 @@ def stdlib_correspondence(run):
 
 
 def oracle(run, deep):
+    helper_oracle(run)
     n = run.n(3000, 40000) * (3 if deep else 1)
     for i in range(n):
         fam = rc.gen_family(run.rng) if i % 3 else rc.gen_family_dense(run.rng)
@@ -222,8 +223,128 @@ def oracle(run, deep):
                           "required_by_documented_rules": sp[0], "required_log": sp[1]})
 
 
+# ---- overrides that call their base through injected helpers (yaqltypes.Super / Delegate) ---------------------
+def _base_fun(fid, kind, tag, nullable):
+    return {"fid": fid, "pos": [["a", ["T", tag, nullable], None]], "star": None, "kwonly": [], "starstar": None,
+            "kind": kind, "nokw": False}
+
+
+def helper_case(rng):
+    """a base chain (1-2 layers of methods / functions / extension methods of one name), an override on top that calls
+    its base through Super(method=None|True|False, with_context, with_name) or Delegate(name, method, with_context),
+    invoked in function or method syntax.  -> (description, observed, expected)"""
+    from yaql.language import contexts, exceptions
+    eng = rc.engine()
+    nlayers = rng.choice([1, 1, 2])
+    fid = itertools.count(1)
+    chain = []
+    for _ in range(nlayers):
+        funs = [_base_fun(next(fid), rng.choice(["method", "function", "extension"]), rng.choice([0, 0, 1, 2, 3, 4]), rng.random() < 0.3)
+                for _ in range(rng.choice([1, 2, 2, 3]))]
+        chain.append({"excl": False, "funs": funs})
+    helper = rng.choice(["super", "super", "delegate"])
+    method = rng.choice([None, True, False]) if helper == "super" else rng.choice([True, False])
+    with_context = rng.random() < 0.3
+    with_name = helper == "super" and rng.random() < 0.25
+    pass_obj = rng.random() < 0.5
+    okind = rng.choice(["extension", "extension", "method", "function"])
+    syntax = rng.choice(["method", "function"])
+    value = rng.choice([["obj", 4], ["obj", 5], ["obj", 2], ["obj", 6], ["int", 1]])
+    name, dname = "describe", "other"
+
+    # the real thing
+    ctx = contexts.Context()
+    for layer in reversed(chain):
+        ctx = ctx.create_child_context()
+        for f in layer["funs"]:
+            for nm in (name, dname):
+                payload = (lambda t: (lambda a: ["base", t]))(f["fid"])
+                specs.parameter("a", yaqltypes.PythonType(rc.CLASSES[f["pos"][0][1][1]], f["pos"][0][1][2]))(payload)
+                if f["kind"] == "method":
+                    specs.method(payload)
+                elif f["kind"] == "extension":
+                    specs.extension_method(payload)
+                ctx.register_function(payload, name=nm)
+    if helper == "super":
+        htype = yaqltypes.Super(with_context=with_context, method=method, with_name=with_name)
+    else:
+        htype = yaqltypes.Delegate(dname, with_context=with_context, method=method)
+    base_has_recv = {"holder": None}
+
+    def override(obj, base, context):
+        lead = []
+        if with_name:
+            lead.append(name)
+        if method is True:
+            lead.append(obj)
+        if with_context:
+            lead.append(context.create_child_context())
+        try:
+            return ["override", base(*(lead + ([obj] if pass_obj else [])))]
+        except exceptions.YaqlException as e:
+            return ["override", ["exc", type(e).__name__]]
+    specs.inject("base", htype)(override)
+    specs.parameter("obj", yaqltypes.PythonType(object, True))(override)
+    if okind == "method":
+        specs.method(override)
+    elif okind == "extension":
+        specs.extension_method(override)
+    top = ctx.create_child_context()
+    top.register_function(override, name=name)
+    v = rc.py_value(value)
+    try:
+        if syntax == "method":
+            observed = top(name, eng, v)()
+        else:
+            observed = top(name, eng)(v)
+    except exceptions.YaqlException as e:
+        observed = ["exc", type(e).__name__]
+
+    # the rules
+    ofun = {"fid": 99, "pos": [["obj", ["T", 0, True], None], ["base", ["H"], None], ["context", ["H"], None]], "star": None,
+            "kwonly": [], "starstar": None, "kind": okind, "nokw": False}
+    outer_call = {"recv": value if syntax == "method" else None, "args": [] if syntax == "method" else [["raw", value]], "kwargs": []}
+    flav = lambda err, recv: {("EUnknown", False): "NoFunctionRegisteredException", ("EUnknown", True): "NoMethodRegisteredException",
+                              ("ENoMatch", False): "NoMatchingFunctionException", ("ENoMatch", True): "NoMatchingMethodException",
+                              ("EAmbiguous", False): "AmbiguousFunctionException", ("EAmbiguous", True): "AmbiguousMethodException"}[(err, recv)]
+
+    def as_result(sp, recv):
+        return ["base", sp[1]] if sp[0] == "chosen" else ["exc", flav(sp[1], recv)]
+    outer = rc.spec_resolve({"chain": [{"excl": False, "funs": [ofun]}] + chain}, outer_call)[0]
+    if outer[0] == "chosen" and outer[1] == 99:
+        if method is True:
+            recv = True
+        elif method is False:
+            recv = False
+        else:
+            recv = syntax == "method"                    # Super(method=None): the kind (and receiver) of the call being served
+        inner_call = {"recv": value if recv else None, "args": [["raw", value]] if pass_obj else [], "kwargs": []}
+        expected = ["override", as_result(rc.spec_resolve({"chain": chain}, inner_call)[0], recv)]
+    else:
+        expected = as_result(outer, syntax == "method")
+    desc = {"base_chain": chain, "helper": helper, "method": method, "with_context": with_context, "with_name": with_name,
+            "override_passes_obj_again": pass_obj, "override_kind": okind, "call_syntax": syntax, "value": value}
+    return desc, observed, expected
+
+
+def helper_oracle(run):
+    for _ in range(run.n(600, 8000)):
+        desc, observed, expected = helper_case(run.rng)
+        run.case(("helper", repr(desc)), nontrivial=True)
+        run.count("helpers:" + desc["helper"])
+        if observed != expected:
+            run.fail("violation", "a base call made through an injected helper (Super / Delegate) does not resolve with the call kind and "
+                                  "receiver the helper declares",
+                     {"helper_case": desc, "observed": observed, "required_by_documented_rules": expected})
+            return
+
+
 def replay(run, data):
     d = data["data"]
+    if "helper_case" in d:
+        before = len(run.failures)
+        helper_oracle(run)
+        return len(run.failures) == before
     if "stdlib" in d:
         return False
     census = []
